@@ -140,6 +140,36 @@ func (f *Flat) consumes(fi *FuncInfo, n *GNode, E types.Object, o flowOpts) (boo
 					continue
 				}
 				Y := objOf(info, s.Lhs[i])
+				// a list of errors the function collects and joins at the end: errs = append(errs, err)
+				if Y != nil && isErrListType(Y.Type()) {
+					if ac, isCall := ast.Unparen(rhs).(*ast.CallExpr); isCall && isBuiltinCall(info, ac, "append") && len(ac.Args) >= 2 && objOf(info, ac.Args[0]) == Y && !ac.Ellipsis.IsValid() {
+						if Y == E {
+							return true, "re-wrapped in place: appended to the list again"
+						}
+						kept := false
+						for _, a := range ac.Args[1:] {
+							if usesObj(info, a, E) {
+								ok, why := checkExpr(a)
+								if !ok {
+									return false, "element of the error list: " + why
+								}
+								kept = true
+							}
+						}
+						if kept {
+							if o.depth > 10 {
+								return false, "transfer chain too deep"
+							}
+							o2 := o
+							o2.depth++
+							res := f.errorConsumed(fi, n.ID, Y, o2)
+							if res.OK {
+								return true, "collected in " + Y.Name()
+							}
+							return false, "collected in " + Y.Name() + " which is lost: " + res.Detail
+						}
+					}
+				}
 				if sel, isSel := ast.Unparen(s.Lhs[i]).(*ast.SelectorExpr); isSel && Y == nil {
 					// an error-typed field of a struct that is a local variable of this function (an accumulator
 					// filled through an inlined helper): the obligation moves to the field
